@@ -1,6 +1,7 @@
 """Adapter for spec/DeclBlockContract.tla  <->  cssutils.css.CSSStyleDeclaration (C10, C11)."""
 from .common import cssutils, init, esc, unesc, outcome  # noqa: F401
 from cssutils.css import CSSStyleDeclaration
+import cssutils.css as css
 
 BAD_VALUE, BAD_PRIO = "#bad", "#badprio"
 PROBES = ["color", "COLOR", "c~olor", "left", "lef~t", "top"]
@@ -30,6 +31,13 @@ def project(style):
     for q in PROBES:
         u = unesc(q)
         d = {"q": q, "has": u in style, "value": style.getPropertyValue(u), "prio": style.getPropertyPriority(u)}
+        # membership asked with a Property OBJECT of that (literal) name, and with the block's own property object
+        try:
+            d["hasobj"] = css.Property(u, "1px") in style
+        except Exception as e:
+            d["hasobj"] = "EXC:" + type(e).__name__
+        own = style.getProperty(u)
+        d["hasown"] = True if own is None else (own in style)
         d["attr"] = getattr(style, domname(q)) if q.islower() and "~" not in q else d["value"]
         probes.append(d)
     return {
